@@ -57,7 +57,7 @@ func (propC04) ID() string { return "C04" }
 
 func (propC04) Cases(tier string) int {
 	if tier == "thorough" {
-		return 12000000
+		return 8000000
 	}
 	return 400000
 }
